@@ -65,7 +65,7 @@ SUPPORTED = [
 ]
 UNSUPPORTED_ATOMS = [r"\s", r"\S", r"\D", r"\W", "(?=a)", "(?!a)", "(?<=a)", "(?<!a)", r"(b)\1", "(?>a)", "a*+", r"[\s]", r"[^\S]", r"[\D]"]
 COVER = {"abc": ("nodraw",), r"a\.b\\": ("nodraw",), "(ab)": ("nodraw",), "(?P<n>a)b": ("nodraw",), "^ab$": ("nodraw",), "((a))": ("nodraw",),
-         r"\-\+": ("nodraw",)}
+         r"\-\+": ("nodraw",), "[.]": ("nodraw",)}
 
 
 def harnesses(tier, seed, active_kf=()):
